@@ -748,4 +748,278 @@ theorem chainInv_replace {compound : Bool} {pre mid mid' post : Chain} (h : Chai
         · exact hl a ha z hz
       · exact o3 a ha m (List.mem_append.2 (Or.inr h2))
 
+/-! ### list surgery -/
+
+theorem chain_decomp (ch : Chain) (i : Nat) (n : Node) (h : ch[i]? = some n) :
+    ch = ch.take i ++ ([n] ++ ch.drop (i + 1)) ∧ ∀ n', ch.set i n' = ch.take i ++ ([n'] ++ ch.drop (i + 1)) := by
+  induction ch generalizing i with
+  | nil => simp at h
+  | cons a t ih =>
+    cases i with
+    | zero =>
+      simp only [List.getElem?_cons_zero, Option.some.injEq] at h
+      subst h
+      exact ⟨by simp, fun n' => by simp⟩
+    | succ i =>
+      simp only [List.getElem?_cons_succ] at h
+      obtain ⟨e1, e2⟩ := ih i h
+      refine ⟨?_, fun n' => ?_⟩
+      · simp only [List.take_succ_cons, List.drop_succ_cons, List.cons_append]
+        exact congrArg (a :: ·) e1
+      · simp only [List.set_cons_succ, List.take_succ_cons, List.drop_succ_cons, List.cons_append]
+        exact congrArg (a :: ·) (e2 n')
+
+theorem mem_take_succ (ch : Chain) (i : Nat) (a : Node) (h : a ∈ ch.take (i + 1)) : a ∈ ch.take i ∨ ch[i]? = some a := by
+  obtain ⟨j, hj, ej⟩ := List.mem_take_iff_getElem.1 h
+  by_cases hji : j < i
+  · exact Or.inl (List.mem_take_iff_getElem.2 ⟨j, by omega, ej⟩)
+  · have : j = i := by omega
+    subst this
+    right
+    rw [List.getElem?_eq_getElem (by omega), ej]
+
+theorem mem_drop_succ (ch : Chain) (i : Nat) (b : Node) (h : b ∈ ch.drop (i + 1)) : b ∈ ch.drop i := by
+  obtain ⟨j, hj, ej⟩ := List.mem_drop_iff_getElem.1 h
+  exact List.mem_drop_iff_getElem.2 ⟨j + 1, by omega, by rw [← ej]; congr 1; omega⟩
+
+/-! ### single node steps, with the keys -/
+
+theorem nodeInv_sync {compound : Bool} {n : Node} (g : Geo n.blk) (c : Core compound n) (p : 0 < n.pnum) : NodeInv compound (sync n) :=
+  { toCore := core_sync c, blk := blkInv_sync g, pos := p }
+
+theorem hcmp_of_wf {compound : Bool} {n : Node} (h : Core compound n) (k : Bytes) (c : Nat) :
+    ∀ st ∈ keys n, cmpOf compound k c st = cmpS compound st (skOf compound k c) := by
+  intro st hst
+  show _ = cmpS compound st (preOf compound c ++ k)
+  rw [preOf_append]; exact cmpOf_eq compound k c st (h.wf st hst)
+
+theorem wfs_sk (compound : Bool) (k : Bytes) (c : Nat) (hk : k ≠ []) (hc : c < 2 ^ 63) : WFS compound (skOf compound k c) := by
+  show WFS compound (preOf compound c ++ k); rw [preOf_append]; exact wfs_stored compound k c hk hc
+
+/-- `_sblk_addkv` of a key that sorts after... any key that is not in the node: node invariant and keys of the result -/
+theorem node_addIns {compound : Bool} {u : Node} (hb : BlkInv u.blk) (hcr : Core compound u) (k : Bytes) (c : Nat) (hk : k ≠ [])
+    (hc : c < 2 ^ 63) (val : Bytes) (hnew : ∀ st ∈ keys u, gtS compound (skOf compound k c) st ∨ gtS compound st (skOf compound k c))
+    (n' : Node) (e : addkvIns u (cmpOf compound k c) (preOf compound c) k val = .ok n') :
+    NodeInv compound (sync n') ∧ ∀ x ∈ keys (sync n'), x ∈ keys u ∨ x = skOf compound k c := by
+  have hcmp := hcmp_of_wf hcr k c
+  obtain ⟨g, cr, p, idx, hkeys⟩ := core_addkvIns' hcr (preOf compound c) k val (addSpec_of_blkInv hb _ _) (cmpOf compound k c)
+    (wfs_sk compound k c hk hc) (preOf_length compound c hc) hcmp (by
+      intro st hst
+      rw [hcmp st hst]
+      rcases hnew st hst with h1 | h1
+      · have := (cmpS_flip compound _ _).1.1 h1; omega
+      · unfold gtS at h1; omega) n' e
+  refine ⟨nodeInv_sync g cr p, ?_⟩
+  intro x hx
+  have hx' : x ∈ keys n' := hx
+  rw [hkeys] at hx'
+  rcases (mem_insertAt _ _ _ _).1 hx' with ex | hx'
+  · exact Or.inr ex
+  · exact Or.inl hx'
+
+theorem keys_fresh : keys fresh = [] := rfl
+
+/-- all keys of a node sort before the lookup key when `_sblk_find_pi_mm` answers "not found, position `pnum`" -/
+theorem all_before {compound : Bool} {n : Node} (h : NodeInv compound n) (k : Bytes) (c : Nat) (idx : Nat)
+    (hf : Found (fun i => cmpOf compound k c (keyAt n i)) n.pnum (false, idx)) (hidx : n.pnum ≤ idx) :
+    ∀ x ∈ keys n, gtS compound x (skOf compound k c) := by
+  intro x hx
+  obtain ⟨i, hi, ei⟩ := List.getElem_of_mem hx
+  have hi' : i < n.pi.length := by simpa [keys] using hi
+  have := hf.left i (by rw [h.pnum] at hidx; omega)
+  have ek : keyAt n i = x := by rw [keyAt_eq_getElem n i hi']; exact ei
+  have this' : cmpOf compound k c (keyAt n i) < 0 := this
+  rw [ek, hcmp_of_wf h.toCore k c x hx] at this'
+  exact this'
+
+/-- **`iwkv_put` keeps the chain invariant**: overwrite, add to a node with room, add to the upper neighbour, new node in front / behind,
+split of a full node at any position -/
+theorem chainInv_put {compound : Bool} {ch : Chain} (h : ChainInv compound ch) (k : Bytes) (c : Nat) (val : Bytes) (hk : k ≠ [])
+    (hc : c < 2 ^ 63) (ch' : Chain) (e : put compound ch k c val = .ok ch') : ChainInv compound ch' := by
+  obtain ⟨r1, r2, r3⟩ := route_spec h k c
+  obtain ⟨cntle, _, _⟩ := lowerCnt_spec compound k c ch
+  obtain ⟨fb, fc⟩ := core_fresh compound
+  -- a new node holding only the new record, at chain position `i`
+  have newNode : ∀ i, (∀ a ∈ ch.take i, ∀ z ∈ keys a, gtS compound z (skOf compound k c)) →
+      (∀ b ∈ ch.drop i, ∀ y ∈ keys b, gtS compound (skOf compound k c) y) →
+      insNode ch i (addkvIns fresh (cmpOf compound k c) (preOf compound c) k val) = .ok ch' → ChainInv compound ch' := by
+    intro i hpre hpost e
+    cases hq : addkvIns fresh (cmpOf compound k c) (preOf compound c) k val with
+    | ok n' =>
+      rw [hq] at e
+      simp only [insNode, PutRes.ok.injEq] at e
+      obtain ⟨hinv, hkeys⟩ := node_addIns fb fc k c hk hc val (fun st hst => absurd hst (by simp [keys_fresh])) n' hq
+      rw [← e]
+      have hdec : ChainInv compound (ch.take i ++ ([] ++ ch.drop i)) := by simpa using h
+      have := chainInv_replace (mid' := [sync n']) hdec (fun m hm => by simp at hm; rw [hm]; exact hinv) (List.pairwise_singleton _ _)
+        (fun m hm x hx => by
+          simp at hm; rw [hm] at hx
+          rcases hkeys x hx with h1 | h1
+          · simp [keys_fresh] at h1
+          · right; rw [h1]; exact ⟨hpre, hpost⟩)
+      simpa using this
+    | full => rw [hq] at e; simp [insNode] at e
+    | maxkvsz => rw [hq] at e; simp [insNode] at e
+  -- node `i` replaced by a node with the same keys plus possibly the new one
+  have setN : ∀ i n (r : Res), ch[i]? = some n →
+      (∀ n', r = .ok n' → NodeInv compound (sync n') ∧ ∀ x ∈ keys (sync n'), x ∈ keys n ∨
+        ((∀ a ∈ ch.take i, ∀ z ∈ keys a, gtS compound z x) ∧ (∀ b ∈ ch.drop (i + 1), ∀ y ∈ keys b, gtS compound x y))) →
+      setNode ch i r = .ok ch' → ChainInv compound ch' := by
+    intro i n r hn hr e
+    cases r with
+    | ok n' =>
+      simp only [setNode, PutRes.ok.injEq] at e
+      obtain ⟨hinv, hkeys⟩ := hr n' rfl
+      obtain ⟨d1, d2⟩ := chain_decomp ch i n hn
+      rw [← e, d2]
+      have h' : ChainInv compound (ch.take i ++ ([n] ++ ch.drop (i + 1))) := by rw [← d1]; exact h
+      exact chainInv_replace h' (fun m hm => by simp at hm; rw [hm]; exact hinv) (List.pairwise_singleton _ _)
+        (fun m hm x hx => by
+          simp at hm; rw [hm] at hx
+          rcases hkeys x hx with h1 | h1
+          · exact Or.inl ⟨n, by simp, h1⟩
+          · exact Or.inr h1)
+    | full => simp [setNode] at e
+    | maxkvsz => simp [setNode] at e
+  simp only [put] at e
+  split at e
+  · -- `lower` is the database block
+    rename_i hcnt0
+    rw [hcnt0] at r2
+    have r2' : ∀ b ∈ ch, ∀ y ∈ keys b, gtS compound (skOf compound k c) y := by simpa using r2
+    split at e
+    · rename_i u hu
+      have hu0 : ch[0]? = some u := by rw [← List.head?_eq_getElem?]; exact hu
+      have hum : u ∈ ch := List.mem_of_mem_head? hu
+      split at e
+      · refine setN 0 u _ hu0 ?_ e
+        intro n' hn'
+        have hinv := h.nodes u hum
+        obtain ⟨a1, a2⟩ := node_addIns hinv.blk hinv.toCore k c hk hc val (fun st hst => Or.inl (r2' u hum st hst)) n' hn'
+        refine ⟨a1, fun x hx => ?_⟩
+        rcases a2 x hx with h1 | h1
+        · exact Or.inl h1
+        · right; rw [h1]
+          exact ⟨fun a ha => by simp at ha, fun b hb => r2' b (List.mem_of_mem_drop hb)⟩
+      · exact newNode 0 (fun a ha => by simp at ha) (by simpa using r2') e
+    · exact newNode 0 (fun a ha => by simp at ha) (by simpa using r2') e
+  · rename_i hcnt
+    have hpos : 0 < lowerCnt compound k c ch := by omega
+    split at e
+    · exact absurd e (by simp)
+    · rename_i n hn
+      have hnm : n ∈ ch := List.mem_of_getElem? hn
+      have hinv := h.nodes n hnm
+      obtain ⟨hfound, hcmp⟩ := found_findPi hinv k c
+      have hsucc : lowerCnt compound k c ch - 1 + 1 = lowerCnt compound k c ch := by omega
+      have r2s : ∀ b ∈ ch.drop (lowerCnt compound k c ch - 1 + 1), ∀ y ∈ keys b, gtS compound (skOf compound k c) y := by
+        rw [hsucc]; exact r2
+      split at e
+      · -- overwrite
+        rename_i hf
+        refine setN _ n _ hn ?_ e
+        intro n' hn'
+        have hlt := (hfound.hit hf).1
+        have := core_updatekv hinv.blk hinv.toCore _ (by rw [← hinv.pnum]; exact hlt) val n' hn'
+        refine ⟨nodeInv_sync this.1 this.2.1 (by rw [this.2.2.1]; exact hinv.pos), fun x hx => Or.inl ?_⟩
+        have hx' : x ∈ keys n' := hx
+        rw [this.2.2.2] at hx'; exact hx'
+      · rename_i hf
+        have hf' : (findPi n (cmpOf compound k c)).1 = false := by
+          cases hq : (findPi n (cmpOf compound k c)).1 with
+          | false => rfl
+          | true => exact absurd hq hf
+        have hfd : Found (fun i => cmpOf compound k c (keyAt n i)) n.pnum (false, (findPi n (cmpOf compound k c)).2) := by
+          have := hfound
+          rw [show findPi n (cmpOf compound k c) = ((findPi n (cmpOf compound k c)).1, (findPi n (cmpOf compound k c)).2) from rfl, hf'] at this
+          exact this
+        -- keys in front of the upper neighbour when the lookup key is behind all keys of `lower`
+        have preAll : n.pnum ≤ (findPi n (cmpOf compound k c)).2 →
+            ∀ a ∈ ch.take (lowerCnt compound k c ch), ∀ z ∈ keys a, gtS compound z (skOf compound k c) := by
+          intro hge a ha z hz
+          rw [← hsucc] at ha
+          rcases mem_take_succ ch _ a ha with h1 | h1
+          · exact r1 a h1 z hz
+          · rw [hn] at h1
+            have : n = a := Option.some.inj h1
+            subst this
+            exact all_before hinv k c _ hfd hge z hz
+        split at e
+        · rename_i hfullp
+          have hfull : n.pnum = Gen.KVBLK_IDXNUM := by have := hinv.le32; omega
+          split at e
+          · rename_i huadd
+            split at e
+            · rename_i u hu
+              have hum : u ∈ ch := List.mem_of_getElem? hu
+              have hud : u ∈ ch.drop (lowerCnt compound k c ch) := by
+                have hlt : lowerCnt compound k c ch < ch.length := by
+                  by_cases hh : lowerCnt compound k c ch < ch.length
+                  · exact hh
+                  · rw [List.getElem?_eq_none (by omega)] at hu; exact absurd hu (by simp)
+                exact List.mem_drop_iff_getElem.2 ⟨0, by omega, by
+                  rw [List.getElem?_eq_getElem hlt] at hu; simpa using Option.some.inj hu⟩
+              refine setN _ u _ hu ?_ e
+              intro n' hn'
+              have hinvu := h.nodes u hum
+              obtain ⟨a1, a2⟩ := node_addIns hinvu.blk hinvu.toCore k c hk hc val (fun st hst => Or.inl (r2 u hud st hst)) n' hn'
+              refine ⟨a1, fun x hx => ?_⟩
+              rcases a2 x hx with h1 | h1
+              · exact Or.inl h1
+              · right; rw [h1]
+                have hge : n.pnum ≤ (findPi n (cmpOf compound k c)).2 := by
+                  have := huadd.1; have c3 : Gen.KVBLK_IDXNUM = 32 := rfl; omega
+                exact ⟨preAll hge, fun b hb => r2 b (mem_drop_succ ch _ b hb)⟩
+            · exact absurd e (by simp)
+          · split at e
+            · exact absurd e (by simp)
+            · split at e
+              · rename_i heq
+                exact newNode _ (preAll (by omega)) r2 e
+              · rename_i hne
+                split at e
+                · rename_i o nb hsp
+                  simp only [PutRes.ok.injEq] at e
+                  obtain ⟨s1, s2, s3, s4, s5⟩ := splitMid_spec hinv hfull _ k c hk hc val hfd o nb hsp
+                  obtain ⟨d1, _⟩ := chain_decomp ch _ n hn
+                  rw [hsucc] at d1
+                  rw [← e]
+                  have h' : ChainInv compound (ch.take (lowerCnt compound k c ch - 1) ++ ([n] ++ ch.drop (lowerCnt compound k c ch))) := by
+                    rw [← d1]; exact h
+                  have hsk : ∀ x, x = skOf compound k c →
+                      (∀ a ∈ ch.take (lowerCnt compound k c ch - 1), ∀ z ∈ keys a, gtS compound z x) ∧
+                      (∀ b ∈ ch.drop (lowerCnt compound k c ch), ∀ y ∈ keys b, gtS compound x y) := by
+                    intro x hx; rw [hx]; exact ⟨r1, r2⟩
+                  have := chainInv_replace (mid' := [o, nb]) h'
+                    (fun m hm => by
+                      simp at hm
+                      rcases hm with hm | hm
+                      · rw [hm]; exact s1
+                      · rw [hm]; exact s2)
+                    (List.pairwise_cons.2 ⟨fun b hb => by simp at hb; rw [hb]; exact s5, List.pairwise_singleton _ _⟩)
+                    (fun m hm x hx => by
+                      simp at hm
+                      rcases hm with hm | hm
+                      · rw [hm] at hx
+                        rcases s3 x hx with h1 | h1
+                        · exact Or.inl ⟨n, by simp, h1⟩
+                        · exact Or.inr (hsk x h1)
+                      · rw [hm] at hx
+                        rcases s4 x hx with h1 | h1
+                        · exact Or.inl ⟨n, by simp, h1⟩
+                        · exact Or.inr (hsk x h1))
+                  simpa using this
+                · exact absurd e (by simp)
+        · -- the node has room
+          refine setN _ n _ hn ?_ e
+          intro n' hn'
+          obtain ⟨g, cr, p, hkeys⟩ := core_addkv2' hinv.toCore _ (preOf compound c) k val (addSpec_of_blkInv hinv.blk _ _)
+            (cmpOf compound k c) (wfs_sk compound k c hk hc) (preOf_length compound c hc) (hcmp_of_wf hinv.toCore k c) hfd n' hn'
+          refine ⟨nodeInv_sync g cr p, fun x hx => ?_⟩
+          have hx' : x ∈ keys n' := hx
+          rw [hkeys] at hx'
+          rcases (mem_insertAt _ _ _ _).1 hx' with ex | hx'
+          · right; rw [ex]; exact ⟨r1, r2s⟩
+          · exact Or.inl hx'
+
 end IwModel.KvChain
